@@ -482,6 +482,23 @@ func refusedAttr(r *rng.R, op string) mb.Attr {
 	return pick(r, mb.AI("bogus_attribute", 1), mb.AF("another_bogus_attribute", 0.5), mb.AInts("axes_bogus", 1, 2))
 }
 
+// ConvImageEntry: a padded 3x3 convolution over an image-sized input (4 x 128 x 128 = 65 536 elements, the size at
+// which padding buffers, im2col and tiling take other paths). Used where the seeded draw (1 Conv in 25) is too rare.
+func ConvImageEntry() *Entry {
+	r := rng.New(0x1263)
+	m := &mb.Model{Opset: 13,
+		Inputs:  []mb.IO{{Name: "x", DT: val.Float32, Shape: []int64{0, 4, 128, 128}}},
+		Outputs: []mb.IO{{Name: "y", NoShape: true}},
+		Inits:   []mb.Init{{Name: "K", V: RandF32(r, []int{1, 4, 3, 3}, -1, 1), Raw: true}, {Name: "B", V: RandF32(r, []int{1}, -1, 1), Raw: true}},
+		Nodes:   []mb.Node{{Op: "Conv", In: []string{"x", "K", "B"}, Out: []string{"y"}, Attrs: []mb.Attr{mb.AInts("pads", 1, 1, 1, 1)}}},
+	}
+	e := &Entry{Name: "Conv/image-sized-padded", Model: m, Sensitive: true, Ops: []string{"Conv"}}
+	for i := 0; i < 2; i++ {
+		e.InputSets = append(e.InputSets, map[string]*val.V{"x": RandF32(r, []int{1, 4, 128, 128}, -2, 2)})
+	}
+	return e
+}
+
 // DefaultRecurrentEntry: a recurrent node that relies on every default (no activations list, no optional
 // attributes), used as a sentinel.
 func DefaultRecurrentEntry(kind string) *Entry {
